@@ -18,7 +18,7 @@ RULE = (
     "a minimal instance (from source where the grammar allows, built as a node otherwise), inserted at EVERY statement position (before each statement and "
     "at the end of each suite, unreachable positions included) of (a) five fixed skeletons (top level, if/else arms, loop body, loop else, after a loop; "
     "exhaustive: node type x position) and (b) Hypothesis-drawn programs of the supported subset (sampled positions), handed to AST2SCFG as a node list and, "
-    "when it unparses, as source text, with prune on and off, and a second request on the same transformer object after a refusal. Oracle: NotImplementedError is raised. Non-function inputs (module-level statements, a "
+    "when it unparses, as source text, with prune on and off, and a second request on the same transformer object after a refusal; the skeleton placements also as FUNCTION OBJECTS defined in a module file (entry through inspect.getsource), and with a 1500-term expression inside the unsupported statement (deeper than the recursion limit). Oracle: NotImplementedError is raised. Non-function inputs (module-level statements, a "
     "function followed by other statements, class, async function, expression statement, empty list / string, non-AST objects) must raise and build no graph. "
     "Non-trivial = placement depth >= 1 (inside a compound statement). Distinct = hash of (program, node type, position)."
 )
@@ -211,9 +211,132 @@ def _nonfunction(col):
             col.case(("nonfunction", label, type(v).__name__), 1, True, sample=dict(nonfunction=label, form=type(v).__name__), classes=["nonfunction"])
 
 
+# --------------------------------------------------------------------------
+# less common entry points: function objects; unusual sizes: very deep expressions
+
+
+def _placed_sources(limit_per_skeleton=None):
+    """(label, tname, source text) of every skeleton x node type x position whose text is legal Python."""
+    out = []
+    for sk, src in SKELETONS.items():
+        fn = ast.parse(src).body[0]
+        k = 0
+        for tname in unsupported_types():
+            node = minimal_instance(tname)
+            for path, idx, depth in positions(fn):
+                t2 = insert_at(ast.parse(src).body, path, idx, node)
+                try:
+                    text = ast.unparse(ast.fix_missing_locations(ast.Module(body=t2, type_ignores=[])))
+                    compile(text, "<c11>", "exec")
+                except Exception:
+                    continue
+                k += 1
+                if limit_per_skeleton and k % limit_per_skeleton:
+                    continue
+                out.append((f"{sk}:{tname}:{'.'.join(map(str, path))}[{idx}]", tname, text, depth))
+    return out
+
+
+def _callables(col, stride):
+    """the same placements handed over as FUNCTION OBJECTS (defined in a real module file, as inspect.getsource needs)."""
+    import importlib.util
+    import os
+
+    from vpbt.core import VERIF
+
+    items = _placed_sources()[::stride]
+    work = VERIF / ".work"
+    work.mkdir(exist_ok=True)
+    path = work / f"c11_callables_{os.getpid()}.py"
+    chunks = []
+    for k, (label, tname, text, depth) in enumerate(items):
+        chunks.append(text.replace("def f(", f"def f_{k}(", 1))
+    extra = "async def co_fn(a, b):\n    x = a\n    return x\n\n\nclass Kls:\n    def meth(self, a):\n        if a:\n            return 1\n        return 2\n\n\nlam = lambda a: a\n"
+    path.write_text("\n\n".join(chunks) + "\n\n" + extra)
+    try:
+        spec_ = importlib.util.spec_from_file_location(f"c11_callables_{os.getpid()}", path)
+        mod = importlib.util.module_from_spec(spec_)
+        spec_.loader.exec_module(mod)
+        for k, (label, tname, text, depth) in enumerate(items):
+            fn = getattr(mod, f"f_{k}")
+            try:
+                AST2SCFG(fn)
+                res = ("accepted (a graph was built)", "accepted")
+            except NotImplementedError:
+                res = None
+            except Exception as e:
+                res = (f"raised {type(e).__name__} ({e}) instead of NotImplementedError", f"{type(e).__name__}@{lib_frame(e)}")
+            if res:
+                col.fail(f"C11:{tname}:callable:{res[1]}", f"{tname} in a function OBJECT ({label}): {res[0]}", dict(callable=label, src=text, node=tname), len(text))
+            col.case(("callable", label), len(text), depth >= 1, sample=dict(entry="function object", placement=label), classes=[tname, "entry:callable"])
+        for label, obj in (("coroutine_function", mod.co_fn), ("class_object", mod.Kls), ("lambda", mod.lam), ("builtin", len)):
+            try:
+                g = AST2SCFG(obj)
+                built = True
+            except BaseException as e:
+                built = False
+                if isinstance(e, (KeyboardInterrupt, SystemExit)):
+                    raise
+            if built:
+                col.fail(f"C11:nonfunction:{label}", f"non-function input {label} (an object, not source text) was accepted: {len(g.graph)} blocks", dict(nonfunction_object=label), 1)
+            col.case(("nonfunction-object", label), 1, True, sample=dict(nonfunction=label, form="object"), classes=["nonfunction", "entry:callable"])
+    finally:
+        try:
+            path.unlink()
+        except OSError:
+            pass
+
+
+DEEP = 1500
+
+
+def _deep(col):
+    """the unsupported statement carries an expression nested deeper than the interpreter's recursion limit:
+    refusal must not depend on walking into it."""
+    chain = " + ".join(["zz"] * DEEP)
+    stmts = {
+        "Assert": f"assert {chain}",
+        "Raise": f"raise ValueError({chain})",
+        "AnnAssign": f"zz: int = {chain}",
+        "Delete": f"del zz[{chain}]",
+        "With": f"with zz({chain}):\n    pass",
+        "Try": f"try:\n    zz = {chain}\nexcept Exception:\n    pass",
+        "Match": f"match {chain}:\n    case 1:\n        pass",
+        "FunctionDef": f"def g():\n    return {chain}",
+        "ClassDef": f"class K:\n    zz = {chain}",
+    }
+    for tname, stext in stmts.items():
+        for sk in ("top", "loopbody"):
+            lines = SKELETONS[sk].splitlines()
+            # first statement of the function body / of the loop body
+            at = 1 if sk == "top" else 3
+            ind = lines[at][: len(lines[at]) - len(lines[at].lstrip())]
+            text = "\n".join(lines[:at] + [ind + l for l in stext.splitlines()] + lines[at:]) + "\n"
+            for form in ("source", "nodes"):
+                try:
+                    arg = text if form == "source" else ast.parse(text).body
+                except RecursionError:
+                    col.count("deep_unparsable")
+                    continue
+                try:
+                    AST2SCFG(arg)
+                    res = ("accepted (a graph was built)", "accepted")
+                except NotImplementedError:
+                    res = None
+                except Exception as e:
+                    res = (f"raised {type(e).__name__} instead of NotImplementedError", f"{type(e).__name__}@{lib_frame(e)}")
+                if res:
+                    col.fail(f"C11:{tname}:deep:{res[1]}", f"{tname} with a {DEEP}-term expression at {sk} ({form}): {res[0]}", dict(deep=tname, skeleton=sk, form=form), 10)
+                col.case(("deep", tname, sk, form), DEEP, sk != "top", sample=dict(node=tname, skeleton=sk, form=form, expression_terms=DEEP), classes=[tname, "deep_expression"])
+
+
 def run(spec):
     col = Collector()
     types = unsupported_types()
+    if spec[0] == "callable":
+        _callables(col, spec[1])
+        _deep(col)
+        return col.result()
     if spec[0] == "skeleton":
         _nonfunction(col)
         for sk, src in SKELETONS.items():
@@ -242,12 +365,19 @@ def run(spec):
 
 def plan(tier, seed):
     if tier == "quick":
-        return [("skeleton",)] + [("gen", seed, s, 60, 4) for s in range(15)]
-    return [("skeleton",)] + [("gen", seed, s, 1500, 6) for s in range(31)]
+        return [("skeleton",), ("callable", 7)] + [("gen", seed, s, 60, 4) for s in range(14)]
+    return [("skeleton",), ("callable", 1)] + [("gen", seed, s, 1500, 6) for s in range(30)]
 
 
 def replay(inp):
     col = Collector()
+    if "callable" in inp or "nonfunction_object" in inp:
+        _callables(col, 1)
+        key = inp.get("callable") or inp.get("nonfunction_object")
+        return [(s, f["msg"]) for s, f in col.failures.items() if key in f["msg"] or s.endswith(":" + key)]
+    if "deep" in inp:
+        _deep(col)
+        return [(s, f["msg"]) for s, f in col.failures.items() if f":{inp['deep']}:" in s]
     if "nonfunction" in inp:
         _nonfunction(col)
         return [(s, f["msg"]) for s, f in col.failures.items() if s.endswith(":" + inp["nonfunction"])]
